@@ -36,6 +36,19 @@ fn tuples(widths: &[usize]) -> Vec<Vec<u64>> {
             t[i] = v;
             out.push(t);
         }
+        // two arguments of the same width holding the same value (the marker of the first one, and 1 MiB)
+        for (j, &w2) in widths.iter().enumerate().skip(i + 1) {
+            if w2 == w {
+                for v in [base[i], 0x10_0000u64 & max] {
+                    let mut t = base.clone();
+                    t[i] = v;
+                    t[j] = v;
+                    if !out.contains(&t) {
+                        out.push(t);
+                    }
+                }
+            }
+        }
         // values that mean something: BCD version numbers, the EDGE32 boundaries, well-known addresses
         let mut dict: Vec<u64> = vec![0x0100, 0x0101, 0x0102, 0x0200, 0x0300, 0xB8000, 0xA0000, 0x10_0000, 0x80];
         dict.extend(EDGE32.iter().map(|&e| e as u64));
@@ -457,7 +470,28 @@ fn built_hd_quiet(t: &mh::EndHeaderTag) -> Built {
 #[cfg(feature = "builder")]
 fn boxed(ctx: &mut Ctx) {
     let maxn = if ctx.quick() { 24 } else { 40 };
-    let content = |n: usize, salt: usize| -> Vec<u8> { (0..n).map(|i| marker(i, salt)).collect() };
+    // argument slices lie at an 8-aligned address for even salts + lengths and at an odd address otherwise (under the
+    // exact-alignment allocator a Vec<u8> would always be odd: a fast path for aligned input must be reachable)
+    struct Bytes {
+        backing: Vec<u64>,
+        off: usize,
+        n: usize,
+    }
+    impl std::ops::Deref for Bytes {
+        type Target = [u8];
+        fn deref(&self) -> &[u8] {
+            unsafe { std::slice::from_raw_parts((self.backing.as_ptr() as *const u8).add(self.off), self.n) }
+        }
+    }
+    let content = |n: usize, salt: usize| -> Bytes {
+        let mut backing: Vec<u64> = vec![0; n / 8 + 2];
+        let off = (n + salt / 2) % 2;
+        let bytes: &mut [u8] = unsafe { std::slice::from_raw_parts_mut(backing.as_mut_ptr() as *mut u8, backing.len() * 8) };
+        for i in 0..n {
+            bytes[off + i] = marker(i, salt);
+        }
+        Bytes { backing, off, n }
+    };
     // every length up to maxn, then the lengths around the width boundaries of 8- and 16-bit counters
     let mut lens: Vec<usize> = (0..=maxn).collect();
     lens.extend([254, 255, 256, 257, 4095, 4096, 4097, 65534, 65535, 65536, 65537]);
@@ -539,6 +573,27 @@ fn boxed(ctx: &mut Ctx) {
                             judge(ctx, "ElfSectionsTag::new", "", got, &want, vec![], false);
                         });
                     }
+                }
+            }
+        }
+    }
+    // EFIMemoryMapTag::new_from_map: every combination of descriptor size, version and map length (incl. maps that
+    // happen to have the native descriptor layout)
+    for ds in [40u32, 48, 0x30, 1, 8, 44, 0xFFFF_FFFF] {
+        for ver in [0u32, 1, 2, 0x8192_A3B4] {
+            for n in [0usize, 1, 39, 40, 41, 48, 80, 96, 120] {
+                for misalign in [0usize, 1] {
+                    leaf!(ctx, "EFIMemoryMapTag::new_from_map", format!("desc_size {} version {:#x} map of {} bytes at an address that is {} modulo 8", ds, ver, n, misalign), |ctx| {
+                        // the argument slice lies at a chosen alignment (the allocator would hand out an odd address)
+                        let mut backing: Vec<u64> = vec![0; n / 8 + 2];
+                        let bytes: &mut [u8] = unsafe { std::slice::from_raw_parts_mut(backing.as_mut_ptr() as *mut u8, backing.len() * 8) };
+                        let c0 = content(n, 53);
+                        bytes[misalign..misalign + n].copy_from_slice(&c0);
+                        let c: &[u8] = &bytes[misalign..misalign + n];
+                        let want = bi::enc_efi_mmap(ds, ver, c);
+                        let got = ctx.call("new", || { let t = EFIMemoryMapTag::new_from_map(ds, ver, c); built_bi(ctx_dummy(), &*t, &|_, _| {}) });
+                        judge(ctx, "EFIMemoryMapTag::new_from_map", "", got, &want, vec![], false);
+                    });
                 }
             }
         }
@@ -700,9 +755,10 @@ fn boxed(ctx: &mut Ctx) {
 
 fn run(ctx: &mut Ctx) {
     let arena = Arena::new(1);
-    ctx.bound("sized", "every sized constructor of both crates: a marker argument tuple, {0,1,MAX,MAX-1,0x80..} per argument, a dictionary per argument (BCD versions 1.0..3.0, 0xB8000, 0xA0000, 1 MiB, every EDGE32 value that fits), every single-byte perturbation of every argument with {00,01,02,04,08,10,20,40,80,FF}; enumerated arguments over all variants; as_bytes() at every address residue the type's alignment permits");
+    ctx.bound("sized", "every sized constructor of both crates: a marker argument tuple, {0,1,MAX,MAX-1,0x80..} per argument, every pair of equal-width arguments set to one and the same value, a dictionary per argument (BCD versions 1.0..3.0, 0xB8000, 0xA0000, 1 MiB, every EDGE32 value that fits), every single-byte perturbation of every argument with {00,01,02,04,08,10,20,40,80,FF}; enumerated arguments over all variants; as_bytes() at every address residue the type's alignment permits");
     ctx.bound("boxed_elf_arguments", "ElfSectionsTag::new: number 0/1/3/0xFFFF x entry size 40/64/0/48 x string-table index over EDGE32 + {0xFF00, 0xFFF1, 0xFFF2, 0xFF1F, 40, 64} x 11 section-data lengths (0..=192 bytes)");
     ctx.bound("boxed_request_lists", "InformationRequestHeaderTag::new: every list of length 0..=4 over the ids {1, 6, 21, 0, 0x1337, 17} (repeated, unordered, specified and custom ids), both flags");
+    ctx.bound("boxed_efi_map_arguments", "EFIMemoryMapTag::new_from_map: descriptor size {40, 48, 1, 8, 44, 0xFFFFFFFF} (0 is refused by a documented assertion) x version {0, 1, 2, a marker} x map lengths {0, 1, 39, 40, 41, 48, 80, 96, 120}, the argument slice 8-aligned and at an odd address");
     ctx.bound("boxed_relational", "heap constructors with related contents: every text of length <= 4 over {a, NUL, e-acute} for the three string kinds (interior, leading, repeated, trailing NULs); every sequence of 1..=3 (thorough: 4) memory areas / EFI descriptors over 8 ranges that are equal, contiguous, overlapping, empty, entirely zero, of different type or end just below 2^64");
     ctx.bound("boxed_bound", "heap constructors: content lengths 0..=24 (quick) / 0..=40 (every padding residue at least three times) and the lengths around 8- and 16-bit counter boundaries (254..257, 4095..4097, 65534..65537); 0..=4, 10, 11, 255..257 memory areas / EFI descriptors; three framebuffer colour-info variants with palettes of 0..=8, 254..257, 1000 and 65535 colours; 0..=24, 255..257, 16383, 16384 information requests");
     sized_boot(ctx, &arena);
